@@ -138,11 +138,12 @@ fn consistent<C: Fc>(plan: &Provide, n: usize) -> bool {
 fn observe<C: Fc>(c: &Case) -> (Outcome, usize, usize) {
     // the builder stage is not the runner's: a failure there is reported as such
     let built: Built<C> = match crate::fw::catch(|| {
-        e1::interpret::<C>(&c.prog, e1::Excl {
+        e1::interpret_linked::<C>(&c.prog, e1::Excl {
             select_ext: true,
             two_creators: false,
             sat_only: true,
         })
+        .0
     }) {
         Ok(b) => b,
         Err(p) => {
